@@ -161,8 +161,9 @@ func runTextField(w *harness.W, hc hcase, sample bool) {
 			ev = vaxis.Key{Keycode: []rune(g)[0], Text: g}
 			m.insert([]string{g})
 		case "paste":
-			ev = vaxis.Key{Keycode: 'p', Text: "pq", EventType: vaxis.EventPaste}
-			m.insert([]string{"p", "q"})
+			// a paste holding a multi-codepoint grapheme (3 runes, one cluster)
+			ev = vaxis.Key{Keycode: 'p', Text: "p" + ins[2] + "q", EventType: vaxis.EventPaste}
+			m.insert([]string{"p", ins[2], "q"})
 		case "left":
 			ev = pick(key(vaxis.KeyLeft, 0), key('b', vaxis.ModCtrl))
 			if m.cursor > 0 {
@@ -334,8 +335,10 @@ func runTextInput(w *harness.W, e *tiEnv, hc hcase, sample bool) {
 			evs = []vaxis.Event{vaxis.Key{Keycode: []rune(g)[0], Text: g}}
 			m.insert([]string{g})
 		case "paste":
-			evs = []vaxis.Event{vaxis.PasteStartEvent{}, vaxis.Key{Keycode: 'p', Text: "p", EventType: vaxis.EventPaste}, vaxis.Key{Keycode: 'q', Text: "q", EventType: vaxis.EventPaste}, vaxis.PasteEndEvent{}}
-			m.insert([]string{"p", "q"})
+			// pasted text arrives as one key event per cluster; one of them is a
+			// multi-codepoint grapheme (3 runes)
+			evs = []vaxis.Event{vaxis.PasteStartEvent{}, vaxis.Key{Keycode: 'p', Text: "p", EventType: vaxis.EventPaste}, vaxis.Key{Keycode: []rune(ins[2])[0], Text: ins[2], EventType: vaxis.EventPaste}, vaxis.Key{Keycode: 'q', Text: "q", EventType: vaxis.EventPaste}, vaxis.PasteEndEvent{}}
+			m.insert([]string{"p", ins[2], "q"})
 		case "left":
 			evs = pick(key(vaxis.KeyLeft, 0), key('b', vaxis.ModCtrl))
 			if m.cursor > 0 {
